@@ -91,8 +91,10 @@ def r19_1(ctx, S, prog, crate):
         ctx.check(any(z.kind == "call" and z.a == "time::timer::Timer::precision" for z in den) and not any(z.kind == "call" and z.a == "std::iter::Iterator::max_by_key" for z in den),
                   "R19.1", [b.path, "denominator-is-timer-precision"], "the denominator is not the timer precision", b.where(x))
         # max_by_key's key closure is duration
+        num_calls = {z.b for z in num if z.kind == "call"}
         for c in b.live_calls():
-            if c.callee == "std::iter::Iterator::max_by_key" and c.bb in S.loop["body"]:
+            # the max_by_key that selects the slowest sample (the one the numerator derives from)
+            if c.callee == "std::iter::Iterator::max_by_key" and c.bb in S.loop["body"] and c.bb in num_calls:
                 for d in b.prov.defs.get(c.args[1]["p"]["l"], []) if c.args[1]["k"] in ("copy", "move") else []:
                     if d[0] == "S" and d[3]["rv"]["k"] == "agg" and d[3]["rv"]["ak"] == "closure":
                         cb = prog.bodies.get((b.crate, norm(d[3]["rv"]["def"]), -1))
